@@ -103,7 +103,9 @@ def plan(tier, seed):
     for i in range(8):
         jobs.append({'space': 'L', 'shard': i, 'of': 8, 'tier': tier,
                      'weight': 3000})
-    jobs.append({'space': 'LC', 'tier': tier, 'weight': 1500})
+    for i in range(8):
+        jobs.append({'space': 'LC', 'tier': tier, 'shard': i, 'of': 8,
+                     'weight': 1500})
     for i in range(16):
         jobs.append({'space': 'R', 'shard': i, 'of': 16, 'tier': tier,
                      'weight': 2000})
@@ -269,9 +271,15 @@ def run_LC(cx, job):
     ents = [txt(l) for l in labels] + [[]]
     ents.extend([txt(x) for x in p]
                 for p in itertools.product(labels, repeat=2))
-    nmax = 2 if job['tier'] == 'quick' else 3
+    nmax = 3 if job['tier'] == 'quick' else 4
+    idx = 0
     for n in range(1, nmax + 1):
         for shape in itertools.product(ents, repeat=n):
+            if n == 4 and any(isinstance(e, list) for e in shape):
+                continue
+            idx += 1
+            if idx % job['of'] != job['shard']:
+                continue
             rule = [e if isinstance(e, str) else list(e) for e in shape]
             cx.roundtrip('LC', rule, kinds, n >= 2)
     cx.acc.sample('LC', rule)
